@@ -43,6 +43,7 @@ DELTA = '1e-7'
 
 # ================================================================================================
 # AST:  ['n', text] ['v', name] ['+', ...] ['*', ...] ['-', a, b] ['neg', a] ['/', a, b] ['exp', a] ['pow', a, int]
+#       ['sw', thr, a, b]  a if V < thr else b (a piecewise in the document)
 #       ['ghk', k, N, U]   k = 0: N/(exp(U)-1)   1: N/(1-exp(U))   2: (exp(U)-1)/N   3: (1-exp(U))/N
 def mathml(t):
     k = t[0]
@@ -61,6 +62,9 @@ def mathml(t):
         return '<apply><power/>%s<cn cellml:units="dimensionless">%d</cn></apply>' % (mathml(t[1]), t[2])
     if k == 'ghk':
         return mathml(ghk_written(t))
+    if k == 'sw':       # voltage switch: a if V < thr else b
+        return ('<piecewise><piece>%s<apply><lt/><ci>V</ci>%s</apply></piece><otherwise>%s</otherwise></piecewise>'
+                % (mathml(t[2]), mathml(t[1]), mathml(t[3])))
     raise ValueError(t)
 
 
@@ -108,6 +112,8 @@ def spec_eval(t, env, V):
         return mp.exp(ev(t[1]))
     if k == 'pow':
         return ev(t[1]) ** t[2]
+    if k == 'sw':
+        return ev(t[2]) if V < ev(t[1]) else ev(t[3])
     if k == 'ghk':
         _, kk, N, U = t
         u, n = ev(U), ev(N)
@@ -449,10 +455,21 @@ def judge_model(case, res):
                 # the analytic continuation at V (= the analytic limit when V is the singular point); the limit at sp
                 # itself differs from it by the variation of the function over the window, which is not an error
                 at_sp = any(v == sp for sp, _ in wins)
-                if not close(a, spec, scale * mp.mpf('1e-9')):
-                    bad.append(('equation %s inside the window at V=%s%s: %s is not within %s*%s of the analytic %s %s'
-                                % (name, p, ' (the singular point)' if at_sp else '', mp.nstr(a, 20), '1e-9',
-                                   mp.nstr(scale, 5), 'limit' if at_sp else 'continuation', mp.nstr(spec, 20)), name,
+                # "within interpolation error": the error of a chord over the window [c - hw, c + hw] is bounded by the
+                # second difference of the analytic continuation over that window (h^2 f''); a chord through wrong end
+                # values or a misplaced window errs by the first-order variation h f', which is larger by 1/h
+                interp = mp.mpf(0)
+                for i in ti:
+                    c, hw = wins[i]
+                    interp = max(interp, abs(spec_eval(e['ast'], env, c + hw) - 2 * spec_eval(e['ast'], env, c)
+                                             + spec_eval(e['ast'], env, c - hw)))
+                tol = scale * mp.mpf('1e-9') + 2 * interp
+                if not close(a, spec, tol):
+                    bad.append(('equation %s inside the window at V=%s%s: %s is not within %s (1e-9*%s + interpolation error '
+                                'bound %s) of the analytic %s %s'
+                                % (name, p, ' (the singular point)' if at_sp else '', mp.nstr(a, 20), mp.nstr(tol, 5),
+                                   mp.nstr(scale, 5), mp.nstr(2 * interp, 5), 'limit' if at_sp else 'continuation',
+                                   mp.nstr(spec, 20)), name,
                                 {'kind': 'inaccurate', 'terms': ti}))
     return bad
 
@@ -485,12 +502,26 @@ def gen_term(r, case, sp_text=None):
     a_text = r.choice(SLOPES)
     if r.random() < 0.5:
         a_text = '-' + a_text
+    free_sp = sp_text is None
     if sp_text is None:
         sp_text = dec(Decimal(r.randint(-9000, 6000)) / (100 if r.random() < 0.8 else 1000))
     a_dec, sp_dec = Decimal(a_text), Decimal(sp_text)
     style = r.choice(['axb', 'axb', 'a(V-sp)', '(V-sp)/k', 'cN', 'interU'])
     V = ['v', 'V']
-    if style == 'axb':
+    if free_sp and r.random() < 0.12:
+        style = 'noshift'    # singular point exactly V = 0: no offset is written at all (SymPy solves it to the integer Zero)
+    if style == 'noshift':
+        a_ast = lit_or_const(r, case, a_text)
+        form = r.randrange(3)
+        if form == 0:
+            U, slope = ['*', a_ast, V], Fraction(value_of(a_ast, case))
+        elif form == 1:
+            U, slope = ['*', V, a_ast], Fraction(value_of(a_ast, case))
+        else:
+            U, slope = ['/', V, a_ast], 1 / Fraction(value_of(a_ast, case))
+        sp_true = Fraction(0)
+        N = U
+    elif style == 'axb':
         b_text = dec(-a_dec * sp_dec)
         a_ast, b_ast = lit_or_const(r, case, a_text), lit_or_const(r, case, b_text)
         U = ['+', ['*', a_ast, V], b_ast] if r.random() < 0.7 else ['+', b_ast, ['*', V, a_ast]]
@@ -548,7 +579,7 @@ def points_for(terms):
 def gen_equation(r, case, idx):
     name = 'i%d' % idx
     shape = r.choice(['outer', 'outer', 'plain', 'additive', 'additiveV', 'factorV', 'prod_same', 'prod_diff',
-                      'sum_same', 'sum_diff', 'nopattern', 'nopattern', 'excluded'])
+                      'sum_same', 'sum_diff', 'nopattern', 'nopattern', 'excluded', 'pwouter'])
     V = ['v', 'V']
     P = lambda: lit_or_const(r, case, r.choice(['0.32', '3', '-2.1', '120', '0.0005', '-0.08', '7.5']))   # noqa: E731
     kind, merge = 'pattern', None
@@ -571,6 +602,10 @@ def gen_equation(r, case, idx):
         ast = g1
     elif shape == 'outer':
         ast = ['*', P(), g1]
+    elif shape == 'pwouter':
+        # outer factor that is itself a (voltage-switched) piecewise, switching well away from the singular point
+        thr = float(mp.mpf(t1['sp'])) + r.choice([-1, 1]) * r.choice([7.5, 20, 35.25])
+        ast = ['*', ['sw', ['n', repr(thr)], P(), P()], g1]
     elif shape == 'additive':
         ast = ['+', ['*', P(), g1], P()]
     elif shape == 'additiveV':
